@@ -1,7 +1,6 @@
 package main
 
 import (
-	"os"
 	"fmt"
 	"go/ast"
 	"go/constant"
@@ -150,10 +149,7 @@ func c03Whitespace(w *World, r *Report) {
 		ok := false
 		// a loop that reads a rune each time round and goes round exactly for the whitespace characters
 		for _, ll := range lexLoops(w, w.SSAFunc(m)) {
-			if os.Getenv("YV_DEBUG") != "" {
-				fmt.Println("DEBUG lexloop", name, ll.consumes, ll.decided, ll.round.String())
-			}
-			if ll.consumes && ll.decided && ll.round.equal(wsSet) {
+			if ll.consumes && ll.roundsExactlyFor(wsSet) {
 				ok = true
 			}
 		}
